@@ -97,6 +97,10 @@ func registerRich(regTool func(*mcp.Tool, func(context.Context, *mcp.CallToolReq
 	regTool(mcp.NewTool("t-err"), func(ctx context.Context, req *mcp.CallToolRequest) (*mcp.CallToolResult, error) {
 		return nil, fmt.Errorf("boom-%s", nonce(req))
 	})
+	regTool(mcp.NewTool("t-ctxerr"), func(ctx context.Context, req *mcp.CallToolRequest) (*mcp.CallToolResult, error) {
+		// the handler's own backend call timed out: an ordinary handler error that happens to wrap a context error
+		return nil, fmt.Errorf("boom-%s: backend: %w", nonce(req), context.DeadlineExceeded)
+	})
 	regTool(mcp.NewTool("t-iserr"), func(ctx context.Context, req *mcp.CallToolRequest) (*mcp.CallToolResult, error) {
 		return mcp.NewErrorResult("soft-" + nonce(req)), nil
 	})
